@@ -80,8 +80,8 @@ class SymE:
             self.st.assume(s.n <= maxlen)
         return s
 
-    def intmap(self, name, elem='int'):
-        return SMap.fresh(name, elem)
+    def intmap(self, name, elem='int', lo=None, hi=None):
+        return SMap.fresh(name, elem, lo=lo, hi=hi)
 
     def choice(self, name, options):
         """case split over a finite list of python values (every alternative is a path)"""
